@@ -18,9 +18,15 @@ import hashlib
 import lib
 
 def cb(b: bytes) -> str:
-    """bytes as an explicit list of byte constructors (far cheaper for coqc to elaborate than hx "..." strings)."""
+    """bytes for coqc: short strings as explicit byte constructors, longer ones as a hexadecimal number unfolded by
+    Base.Bytes.N_to_be at evaluation time (coqc elaborates list and string literals at ~1-2 ms per element, a hex
+    number ten times faster)."""
     b = bytes(b)
-    return '[' + ';'.join('x%02x' % x for x in b) + ']' if b else 'nil'
+    if not b:
+        return 'nil'
+    if len(b) < 4:
+        return '[' + ';'.join('x%02x' % x for x in b) + ']'
+    return f'(N_to_be {len(b)}%nat 0x{b.hex()}%N)'
 
 
 def cz(n: int) -> str:
